@@ -469,6 +469,17 @@ def rule_r7(ctx: Ctx) -> None:
         ("repeat_range", "bx.repeat_range(5)", ("RangeRepetitionOperator", [X], [5], [])),
         ("concatenate", "BitLengthSet.concatenate([bx, 7, by, {1, 2}])", ("ConcatenationOperator", [X, nul(7), Y, nul(1, 2)], [], [])),
         ("unite", "BitLengthSet.unite([by, bx, {1, 2}, 7])", ("UnionOperator", [Y, X, nul(1, 2), nul(7)], [], [])),
+        # the operands arrive as any iterable: a list, a tuple, a one-shot iterator, a generator; of sets, of plain integers
+        ("concatenate", "BitLengthSet.concatenate(iter([bx, 7, by]))", ("ConcatenationOperator", [X, nul(7), Y], [], [])),
+        ("unite", "BitLengthSet.unite(iter([by, bx, 7]))", ("UnionOperator", [Y, X, nul(7)], [], [])),
+        # (over concrete operands only the *set* is compared - folding constants into one leaf is as good as an operator tree)
+        ("concatenate", "BitLengthSet.concatenate(x for x in [7, 9, 11])", frozenset({27})),
+        ("concatenate", "BitLengthSet.concatenate((7, 9))", frozenset({16})),
+        ("concatenate", "BitLengthSet.concatenate(iter([7, {1, 2}, 9]))", frozenset({17, 18})),
+        ("concatenate", "BitLengthSet.concatenate([5])", frozenset({5})),
+        ("unite", "BitLengthSet.unite(x for x in [7, 9, 11])", frozenset({7, 9, 11})),
+        ("unite", "BitLengthSet.unite((7, {1, 2}))", frozenset({1, 2, 7})),
+        ("unite", "BitLengthSet.unite(iter([7, 7, 9]))", frozenset({7, 9})),
         ("__add__", "bx + by", ("ConcatenationOperator", [X, Y], [], [])),
         ("__add__", "bx + 7", ("ConcatenationOperator", [X, nul(7)], [], [])),
         ("__radd__", "7 + bx", ("ConcatenationOperator", [nul(7), X], [], [])),
@@ -484,8 +495,18 @@ def rule_r7(ctx: Ctx) -> None:
     per: Dict[str, List[Any]] = {}
     for name, src, want in cases:
         r = _eval_bls(ctx, src, env)
-        got = _describe(ctx, _op_of(ctx, r)) if not isinstance(r, tuple) else r
         ctx.count()
+        if isinstance(want, frozenset):
+            if isinstance(r, tuple):
+                per.setdefault(name, []).append((src, False, r, sorted(want)))
+                continue
+            e2 = dict(env)
+            e2["r"] = r
+            meaning = (_eval_bls(ctx, "r.min", e2), _eval_bls(ctx, "r.max", e2), frozenset(_eval_bls(ctx, "set(r)", e2)), frozenset(_eval_bls(ctx, "set(r % 5)", e2)))
+            expect = (min(want), max(want), want, frozenset(x % 5 for x in want))
+            per.setdefault(name, []).append((src, meaning == expect, [sorted(x) if isinstance(x, frozenset) else x for x in meaning], [sorted(x) if isinstance(x, frozenset) else x for x in expect]))
+            continue
+        got = _describe(ctx, _op_of(ctx, r)) if not isinstance(r, tuple) else r
         per.setdefault(name, []).append((src, got == want if not isinstance(want, AObj) else got is want, got, want))
     for name, rows in per.items():
         fn = b.methods.get(name)
@@ -557,6 +578,13 @@ def _analytic_samples(cname: str) -> List[Dict[str, Any]]:
         lo3, hi3 = sorted((a[(i + 9) % 24], b[(i + 4) % 24]))
         children = [child, _MinMax(lo2, hi2), _MinMax(lo3, hi3)][: 1 + i % 3]
         out.append({"child": child, "children": children, "k": b[(i * 3) % 24] % 9, "alignment": 1 + a[(i * 11) % 24] % 17, "values": frozenset(a[j % 24] for j in range(i, i + 1 + i % 4))})
+    # the quantifier of the property reaches far beyond what fits a machine float: lengths around and above 2**53, counts up to
+    # 2**63 (exact integer arithmetic must be used throughout)
+    big = [2**53 + 1, 2**53 + 7, 2**56 + 2**3 + 1, 2**59 + 65, 2**63 - 1, 2**64 + 3, 3 * 2**70 + 5]
+    for i, v in enumerate(big):
+        child = _MinMax(v - (i % 3), v + i)
+        other = _MinMax(big[(i + 2) % len(big)], big[(i + 2) % len(big)] + 9)
+        out.append({"child": child, "children": [child, other][: 1 + i % 2], "k": [1, 3, 2**40 + 1, 2**63][i % 4], "alignment": [8, 3, 64, 7, 1, 8, 5][i], "values": frozenset({v, v + 1})})
     return out
 
 
@@ -609,7 +637,7 @@ def rule_r8(ctx: Ctx) -> None:
         bad = []
         for r in range(1, 18):
             me = _operator_instance(ctx, pc, {"child": Sym(min=0, max=0), "alignment": r})
-            for x in range(0, 70):
+            for x in list(range(0, 70)) + [2**53 - 1, 2**53 + 1, 2**53 + 3, 2**56 + 9, 2**59 + 65, 2**63 - 1, 2**64 + 1]:
                 try:
                     got = Folder({"self": me, pad.params[1]: x}, repo, pad.module, pad.cls).fold(v)
                 except Unfoldable as ex:
@@ -618,7 +646,7 @@ def rule_r8(ctx: Ctx) -> None:
                 ctx.count()
                 if got != want:
                     bad.append({"x": x, "alignment": r, "found": got, "expected": want})
-        ctx.check(not bad, pad.short, norm(v), "_pad rounds up to the next multiple of the alignment (all 1190 points of the grid)", pad.where(), bad[:4])
+        ctx.check(not bad, pad.short, norm(v), "_pad rounds up to the next multiple of the alignment (0..69 and values around 2**53 .. 2**64, for every alignment 1..17)", pad.where(), bad[:4])
     lcm = ctx.func(SYM + ".least_common_multiple")  # (wherever it is defined, as seen from the operators' module)
     lv = single_return(ctx, lcm)
     bad = []
